@@ -215,6 +215,17 @@ fn c04_cli_case(bytes: &[u8], from: Option<Fmt>, to: Fmt, rec: &mut Recorder) ->
                 return Err(format!("[cli {} {} {} -> {}] ended with {}", bin.name(), how, opt_name(from), to.name(), r.brief()));
             }
         }
+        // a failure whose diagnostic cannot be written is still a failure with a
+        // status, not an abort
+        if r2.code == Some(1) && !r2.timed_out {
+            for spec in [StderrSpec::DevFull] {
+                let r3 = run_xt_full(bin, &base, &sc.dir, StdinSpec::Bytes(bytes.to_vec()), StdoutSpec::Pipe, spec, vec![], 60);
+                rec.class("cli_unwritable_stderr");
+                if !r3.timed_out && !matches!(r3.code, Some(0) | Some(1)) {
+                    return Err(format!("[cli {} stdin {} -> {}, stderr {:?}] ended with {}", bin.name(), opt_name(from), to.name(), spec, r3.brief()));
+                }
+            }
+        }
     }
     Ok(())
 }
@@ -254,7 +265,7 @@ impl Check for C04 {
         ]
     }
     fn required_classes(&self, _tier: Tier) -> Vec<&'static str> {
-        vec!["family:valid_stream", "family:mutated_stream", "family:random_bytes", "family:adversarial", "refusal:null_to_toml", "refusal:seq_key", "refusal:bytes", "refusal_refused", "refusal_nested", "cli_status:exit 0", "cli_status:exit 1"]
+        vec!["family:valid_stream", "family:mutated_stream", "family:random_bytes", "family:adversarial", "refusal:null_to_toml", "refusal:seq_key", "refusal:bytes", "refusal_refused", "refusal_nested", "cli_status:exit 0", "cli_status:exit 1", "cli_unwritable_stderr"]
     }
     fn run_unit(&self, unit: &Unit, shard: u32, seed: u64, tier: Tier, rec: &mut Recorder) {
         match unit.name {
